@@ -41,12 +41,16 @@ extern void (*sched_on_wait_entry)(int tid, struct env_wait *w);
 extern void (*sched_on_wait_return)(int tid, struct env_wait *w, int n);
 /* step horizon: executions longer than this many scheduling points end quietly (0 = none) */
 extern long sched_max_points;
+/* 1 (default): a signal handler runs as one atomic scheduler step; 0: its lock operations are scheduling points */
+extern int sched_signal_atomic;
 extern long sched_points;
 
 /* queue a signal for thread tid; it is delivered by that thread itself
  * (pthread_kill(self)) at one of its next scheduling points / kernel waits */
 void sched_signal(int tid, int sig);
 int sched_signals_pending(int tid);
+/* raise a signal on the calling controlled thread (handler runs synchronously, all signals blocked meanwhile) */
+void sched_raise(int sig);
 /* 1: thread is currently blocked in a kernel wait */
 int sched_in_wait(int tid);
 
